@@ -145,14 +145,22 @@ def one(rep, prog, cfg):
             # is this the reply to idle / noidle?  (not the reply to a request: that one goes to the responder whole)
             g = Cfg(co)
             sw = [s for s in tables.discr_switches(co) if s["place"]["l"] == st["dest"]["l"] and not s["place"]["p"]]
-            if not sw:
-                continue
-            okt = sw[0]["arms"].get("Ok")
-            if okt is None:
-                continue
-            n_sites += 1
             name = fn_name(prog, co)
-            region = reach(g.succs, [okt], avoid=conv)
+            if sw and sw[0]["arms"].get("Ok") is not None:
+                n_sites += 1
+                region = reach(g.succs, [sw[0]["arms"]["Ok"]], avoid=conv)
+            elif st["dest"]["p"]:
+                continue
+            else:
+                # the outcome is not matched on the spot (`.map_err(..)?`, handed on in a tuple): the blocks that can follow when
+                # the conversion to a single frame gave Ok (A13)
+                from ..cfg import VariantReach
+                vr = VariantReach(co)
+                region = vr.blocks_after_def(sbb, st["dest"]["l"], ("Ok",), avoid=conv)
+                err_region = vr.blocks_after_def(sbb, st["dest"]["l"], ("Err",), avoid=conv)
+                if region == err_region:
+                    continue        # the outcome is never told apart here
+                n_sites += 1
             leaks = [x for x in region if co.blocks[x]["t"]["k"] == "return"]
             rep.check(bool(conv) and not leaks, "C04.both-sites", "%s/%s" % (cfg, name), co.loc(co.blocks[sbb]["ts"]),
                       "a successfully received idle/noidle reply can leave %s without its `changed` entries having been turned into events "
